@@ -320,7 +320,7 @@ func work(ctx *runner.Ctx) {
 		if !ctx.Mine(i) {
 			continue
 		}
-		if i&0xff == 0 && ctx.Expired() {
+		if ctx.Expired() {
 			return
 		}
 		runCase(ctx, k)
@@ -353,6 +353,6 @@ func main() {
 		Work:           work,
 		Replay:         replay,
 		QuickBudget:    85 * time.Second,
-		ThoroughBudget: 20 * time.Minute,
+		ThoroughBudget: 45 * time.Minute,
 	})
 }
